@@ -181,7 +181,7 @@ func init() {
 		Rule: "the matrix {., @, $} × {none, &, ~, =} × {property call, literal call, variable call} over controlled receivers (arrays and iterator literals of 0–3 user objects, or nil at chosen positions) whose callee behaviour per element is table-driven (value, nil, raise) and identical for the three forms; behaviour vectors are exhaustive over {value, nil, raise, nil-element}ⁿ for n ≤ 3 (n ≤ 4 in thorough); list chains also with chain arguments [], {} and %{} ; plus built-in receivers (int, str, range, obj, map) under form equality. " +
 			"Oracle: (1) the per-element model of the statement (results in order, @ drops nil, =@ keeps it, ~ substitutes the call's receiver for a nil or raised result, & skips the call for a nil receiver, $ folds left from the chain argument) incl. which callees were called (markers); (2) the three call forms give the same result in every cell except &$. " +
 			"distinct = distinct (context, form, receiver kind, behaviour vector) cells judged; non-trivial = the vector contains ≥1 nil/raise/nil-element" +
-			" Added: iterator variables already used by earlier chains, nil descendants as nil elements, non-empty chain-argument containers with colliding keys, and every list/reduce cell also written over two lines with `|`.",
+			" Added: iterator variables already used by earlier chains, nil descendants as nil elements, non-empty chain-argument containers with colliding keys, and every list/reduce cell also written over two lines with `|`. Sixth round: property-form `@(arg)prop` digests also when nothing was collected; the error a raising element raises varies with its position (ValueErr, NameErr, ZeroDivisionErr).",
 		Assumptions: []string{
 			"combinations the statement leaves open are not generated: a nil element under ~@ (the substituted value is again nil) and the lonely reduce chain with nil receivers (its notion of receiver differs between the forms)",
 			"raises under non-thoughtful contexts are only checked for delivery of the first error (propagation is C07's subject)",
